@@ -266,6 +266,55 @@ def indexed_cases(rng):
     return fails
 
 
+def lazy_apply_cases(rng):
+    """a lazily applied function (stateful: another rotation / selection in every epoch; or random) inside the
+    profiled pipeline: wrapping applies nothing, and every epoch equals the plain pipeline's; len / indexable answer
+    (or refuse) alike"""
+    import numpy as np
+    fails = []
+    n = rng.randint(1, 7)
+    kind = rng.choice(['rotate', 'rotate_map', 'rotate_prefetch1', 'shuffle', 'shard'])
+    seed = rng.randrange(1 << 30)
+
+    def mk(calls):
+        st = {'epoch': 0}
+        rs = np.random.RandomState(seed)
+
+        def fn(d):
+            calls.append(1)
+            st['epoch'] += 1
+            if kind == 'shuffle':
+                return d.shuffle(rng=rs)
+            if kind == 'shard':
+                return d.shard(min(2, len(d)), 0)
+            r = st['epoch'] % len(d)
+            return d[list(range(r, len(d))) + list(range(r))]
+        ds = lazy_dataset.new({f'k{i}': i for i in range(n)}).apply(fn, lazy=True)
+        if kind == 'rotate_map':
+            ds = ds.map(lambda x: x + 1)
+        if kind == 'rotate_prefetch1':
+            ds = ds.prefetch(1, 2)
+        return ds
+    with warnings.catch_warnings():
+        warnings.simplefilter('ignore')
+        ca, cb = [], []
+        plain, inner = mk(ca), mk(cb)
+        prof = core.ProfilingDataset(inner)
+        if cb:
+            fails.append(('profiling_wrapper_applies_the_lazy_function', {'kind': kind, 'n': n, 'calls_at_wrapping': len(cb)}))
+        for what, ask in (('len', lambda d: len(d)), ('indexable', lambda d: bool(d.indexable))):
+            a, b = outcome(lambda: ask(plain)), outcome(lambda: ask(prof))
+            if a != b:
+                fails.append(('not_transparent_lazy_apply', {'kind': kind, 'n': n, 'question': what, 'plain': a, 'profiled': b}))
+        del ca[:], cb[:]
+        for epoch in range(3):
+            a, b = run_stream(lambda: plain), run_stream(lambda: prof)
+            if a != b:
+                fails.append(('not_transparent_lazy_apply', {'kind': kind, 'n': n, 'seed': seed, 'epoch': epoch, 'plain': a, 'profiled': b}))
+                break
+    return fails
+
+
 def run(rep):
     rng = random.Random(rep.seed * 43 + 20)
     n = 200 if rep.tier == 'quick' else 5000
@@ -286,6 +335,8 @@ def run(rep):
         fails += stateful_cases(rng)
     for _ in range(150 if rep.tier == 'quick' else 3000):
         fails += indexed_cases(rng)
+    for _ in range(60 if rep.tier == 'quick' else 1000):
+        fails += lazy_apply_cases(rng)
     seen = set()
     for cl, det in fails:
         if cl not in seen and len(rep.violations) < 4:
